@@ -359,7 +359,7 @@ Proof.
       * apply andb_true_iff in E2. destruct E2 as [E2 E3]. apply N.eqb_eq in E2, E3. subst.
         inversion H'; subst. split; [exact Hlt|split; [exact Hc|left; exact Ev]].
       * apply (A _ _ _ H').
-    + apply cinv_start_converter, cinv_set_toconv, H.
+    + apply cinv_start_converter, cinv_set_toconv, cinv_invalidate, H.
   - (* AViewClose *) simpl. apply (cinv_fields st); [fields|exact H].
 Qed.
 
